@@ -131,30 +131,35 @@ func (w *world) finish() {
 	}
 
 	// ---- operating system truth
-	tcpL, udpL := h.OwnTCPListenPorts(), h.OwnUDPPorts()
 	for _, port := range w.block[1:] {
 		for pi, proto := range []string{"tcp", "udp"} {
-			bound := tcpL[port]
-			if pi == 1 {
-				bound = udpL[port]
+			bound, ok := isBound(proto, port)
+			if !ok {
+				run.Inconclusive("bind test gave no answer")
+				continue
 			}
 			_, owned := L[pi][port]
 			_, squatted := w.squats[pi][port]
 			switch {
 			case bound && !owned && !squatted:
-				c.Violation("bound-port-without-live-owner-"+proto, "%s port %d is bound by the server but no live proxy holds it (allowed=%v)", proto, port, w.allowed[port])
+				c.Violation("bound-port-without-live-owner-"+proto, "%s port %d is bound but no live proxy holds it (allowed=%v) and the harness does not squat it", proto, port, w.allowed[port])
 			case !bound && owned:
-				c.Violation("live-owner-without-bound-port-"+proto, "%s port %d is held by %v but no socket of the server is bound there", proto, port, L[pi][port].members)
+				c.Violation("live-owner-without-bound-port-"+proto, "%s port %d is held by %v but nothing is bound there", proto, port, L[pi][port].members)
 			}
 		}
 	}
-	if tcpL[w.bind] == false {
-		run.Inconclusive("control port not seen in /proc (ledger reading unreliable)")
-	}
-	for port := range tcpL {
-		if port < universeLo || port >= universeHi {
-			c.Violation("server-listener-outside-every-configured-port", "this process listens on tcp port %d: outside every allowPorts set, control port and harness port used in this run (%d-%d)", port, universeLo, universeHi-1)
+	// sockets of this process from /proc (expensive: every 8th case, and whenever a reported address did not accept)
+	if c.Idx%8 == 0 || w.sawDeadAddr.Load() {
+		tcpL := h.OwnTCPListenPorts()
+		if !tcpL[w.bind] {
+			run.Inconclusive("control port not seen in /proc (ledger reading unreliable)")
 		}
+		for port := range tcpL {
+			if port < universeLo || port >= universeHi {
+				c.Violation("server-listener-outside-every-configured-port", "this process listens on tcp port %d: outside every allowPorts set, control port and harness port used in this run (%d-%d)", port, universeLo, universeHi-1)
+			}
+		}
+		run.Count("proc_ledgers", 1)
 	}
 	run.Count("ledgers", 1)
 	// who answers: every block port
